@@ -540,7 +540,9 @@ def rule_G1(ctx, typer):
     for f in cls.funcs():
         for node in walk_own(f.node):
             if isinstance(node, ast.Call) and isinstance(node.func, ast.Attribute) and node.func.attr in ("search", "findall", "finditer") \
-                    and not isinstance(node.func.value, ast.Constant):
+                    and not isinstance(node.func.value, ast.Constant) \
+                    and not (isinstance(node.func.value, ast.Name) and node.func.value.id in (f.module.assigns or {})):
+                # (a module-level precompiled expression is not the glob pattern: e.g. a tokeniser applied to the pattern text)
                 n += 1
                 ctx.viol("G1", f, node, "pattern applied with .%s: not anchored at the start of the name" % node.func.attr)
             if isinstance(node, ast.Call) and isinstance(node.func, ast.Attribute) and node.func.attr in ("match", "fullmatch"):
@@ -573,6 +575,16 @@ def _check_translation(ctx, typer, tr, patparam, result_expr):
                     isinstance(x, ast.Name) and x.id in tainted for x in ast.walk(it)):
                 tainted.add(tgt.id)
                 changed = True
+    # the per-character rule below needs the loop to run over the characters of the pattern itself
+    for node in walk_own(tr.node):
+        it = node.iter if isinstance(node, (ast.For, ast.comprehension)) else None
+        if it is not None and any(isinstance(x, ast.Name) and x.id in tainted for x in ast.walk(it)):
+            base = it
+            while isinstance(base, ast.Call) and isinstance(base.func, ast.Name) and base.func.id in ("enumerate", "iter", "list", "tuple") and base.args:
+                base = base.args[0]
+            if not (isinstance(base, ast.Name) and base.id in tainted):
+                raise AnalysisError("G1: %s splits the pattern with `%s` before translating it: the pieces are not single characters and the "
+                                    "per-character translation rule does not apply (not followed)" % (tr.qual, norm(it)[:60]))
     assigns, augs, appends = {}, {}, {}
     for node in walk_own(tr.node):
         if isinstance(node, ast.Assign) and len(node.targets) == 1 and isinstance(node.targets[0], ast.Name):
@@ -1550,7 +1562,7 @@ def rule_G1b_dotall(ctx, typer):
                 if isinstance(c, ast.Constant) and isinstance(c.value, str) and c.value.startswith("(?") and "s" in c.value.split(")")[0]:
                     inline = True
             if inline:
-                ctx.inst("G1", f, node, "DOTALL through the inline flag of the translation")
+                ctx.inst("G1f", f, node, "DOTALL through the inline flag of the translation")
                 continue
             fl = None
             for k in node.keywords:
@@ -1562,24 +1574,29 @@ def rule_G1b_dotall(ctx, typer):
             if poss is None:
                 raise AnalysisError("G1: cannot follow the flags of re.compile in %s" % f.qual)
             if all("DOTALL" in s_ or "S" in s_ for s_ in poss) and poss:
-                ctx.inst("G1", f, node, "DOTALL in every value of the flags argument")
+                ctx.inst("G1f", f, node, "DOTALL in every value of the flags argument")
             else:
-                ctx.viol("G1", f, node, "the pattern is compiled without DOTALL on some path (flags %s, no inline `(?s)`): '*' and '?' do "
+                ctx.viol("G1f", f, node, "the pattern is compiled without DOTALL on some path (flags %s, no inline `(?s)`): '*' and '?' do "
                          "not match a newline in a name there" % sorted(sorted(s_) for s_ in poss),
                          construct="%s: re.compile without DOTALL" % f.qual)
     return n
 
 
-def _flag_names(e):
+_MODASSIGNS = [{}]
+
+
+def _flag_names(e, depth=0):
     """names of the re flags OR-ed in an expression; None if not such an expression"""
     if e is None:
         return frozenset()
+    if isinstance(e, ast.Name) and e.id in _MODASSIGNS[0] and depth < 4:
+        return _flag_names(_MODASSIGNS[0][e.id], depth + 1)  # a module-level flag constant
     if isinstance(e, ast.Constant) and e.value == 0:
         return frozenset()
     if isinstance(e, ast.Attribute) and norm(e.value) == "re":
         return frozenset([e.attr])
     if isinstance(e, ast.BinOp) and isinstance(e.op, ast.BitOr):
-        l, r = _flag_names(e.left), _flag_names(e.right)
+        l, r = _flag_names(e.left, depth), _flag_names(e.right, depth)
         if l is None or r is None:
             return None
         return l | r
@@ -1589,6 +1606,11 @@ def _flag_names(e):
 def _flag_sets(cfg, f, call, e):
     """possible sets of flag names of the expression at the call (forward dataflow over the flags variable)"""
     from .common import cfg_nodes_containing
+    _MODASSIGNS[0] = {k: v for k, v in (f.module.assigns or {}).items()
+                      if not any(isinstance(n_, ast.Name) and isinstance(n_.ctx, ast.Store) and n_.id == k for n_ in ast.walk(f.node))}
+    if isinstance(e, ast.IfExp):
+        a_, b_ = _flag_sets(cfg, f, call, e.body), _flag_sets(cfg, f, call, e.orelse)
+        return None if a_ is None or b_ is None else a_ | b_
     direct = _flag_names(e)
     if direct is not None:
         return {direct}
@@ -1616,9 +1638,9 @@ def _flag_sets(cfg, f, call, e):
             else:
                 out = frozenset((s_ | v) if isinstance(s_, frozenset) else s_ for s_ in cur)
         for s, lab in n_.succ:
-            if lab == "exc":
-                continue
-            new = state.get(s.id, frozenset()) | out
+            # exception edges are followed too (the compile call usually sits in the handler of the cache miss); along them the
+            # statement's own effect has not happened
+            new = state.get(s.id, frozenset()) | (cur if lab == "exc" else out)
             if new != state.get(s.id):
                 state[s.id] = new
                 work.append(s)
